@@ -21,11 +21,14 @@ func FreeMemory() int64 {
 }
 
 func SizeOk(n int) (bool, int64) {
+	if n < 0 { // overflowed size computation.
+		return false, FreeMemory()
+	}
 	if n <= 256 { // no checks for small slices (4k memory/one typical page)
 		return true, 0
 	}
 	free := FreeMemory()
-	return ((free >= 0) && ((int64(n) * ObjectSize) < free)), free
+	return ((free >= 0) && (int64(n) < free/ObjectSize)), free // not n*ObjectSize which can overflow.
 }
 
 func MustBeOk(n int) {
